@@ -57,6 +57,19 @@ def suite_echo(ctx):
                 s.fail({'site': c.site, 'input': '%s d=%s' % (c.dline, core.hx(c.good)), 'generator': name, 'observed': base, 'required': 'the matching response is returned'})
                 continue
             for (fname, off, ln) in c.echo_fields:
+                # the reply cut right before this echo, and inside it: an echo that is not there cannot repeat what was transmitted
+                for cut in sorted({off, off + ln - 1}):
+                    if cut >= len(c.good) or 'not compared' in fname or name == 'dtc':
+                        continue            # (ReadDTCInformation: a reply cut at a record boundary is a complete reply with fewer records)
+                    d = c.good[:cut]
+                    got = declib.run_reply(c, d)
+                    line = '%s d=%s' % (c.dline, core.hx(d))
+                    lines.append(line)
+                    impl.append(got)
+                    s.count('%s/%s:cut:%s' % (name, fname, got.split(' ')[0]))
+                    if got.split(' ')[0] not in REJECTED:
+                        s.fail({'site': c.site, 'input': line, 'generator': name, 'field': fname, 'class': 'reply cut before / inside the echo',
+                                'observed': got, 'required': 'unexpected (or invalid) response: the %s echo is missing' % fname})
                 cur = int.from_bytes(c.good[off:off + ln], 'big')
                 full = ctx.thorough or ci < 6
                 wv = wrong_values(rng, cur, ln, full)
@@ -131,7 +144,13 @@ def suite_service_id(ctx):
         firsts = [b for b in range(256) if b != good[0] and b != 0x7F]
         if not ctx.thorough:
             known = [b for b in firsts if (b - 0x40) in by_sid]
-            firsts = known + rng.sample([b for b in firsts if b not in known], 24)
+            firsts = known + rng.sample([b for b in firsts if b not in known and b != frame[0]], 24)
+            firsts.append(frame[0])        # the request identifier itself (a bus that echoes the tester's own frames)
+        # an earlier exchange of the same service that ended with a negative response (whatever the parser learnt from `7F sid ..` must not make
+        # a frame that starts with the request identifier look like a response)
+        c0, conn0 = cl.make_client(cl.Cfg(rt=50, p2=20, p2s=20), extra=c.config())
+        conn0.responder = lambda p: [(1, bytes([0x7F, p[0], 0x22]))]
+        cl.observe_outer(conn0, lambda: c.invoke(c0))
         for b in firsts:
             sw = rng.choice([(True, True, True), (False, False, False)])
             cfg = cl.Cfg(rt=50, p2=20, p2s=20, exc=sw)
